@@ -30,10 +30,14 @@ let write_replay (d : drv) (kind : string) (details : string) : string =
   path
 
 (* run one case; a mismatch is recorded with the script since the last "new" as replay *)
+let reuse_chain = ref 0
+let force_fresh = ref true
+
 let run_case (s : sess) (f : unit -> unit) =
   bump "cases";
   let saved = match !the_rng with Some r -> Some r.st | None -> None in
   let record kind details =
+    force_fresh := true;
     let path = write_replay s.d kind details in
     violations := (kind, details, path) :: !violations;
     bump ("violations_" ^ kind) in
@@ -156,6 +160,34 @@ let obs_parse_random (s : sess) (r : rng) (spec : move list) =
     | 2 when spec <> [] -> let t = string_of_str (move_text (pick r spec)) in t ^ String.make 1 (Char.chr (97 + rand r 26))
     | _ when spec <> [] -> let t = string_of_str (move_text (pick r spec)) in String.uppercase_ascii t
     | _ -> "0000" in
+  (* every single-byte substitution of two legal move texts (length x 255 strings each): accepted only if the result is
+     itself a legal move's text or an applicable standard alias *)
+  let texts = List.map (fun m -> string_of_str (move_text m)) spec in
+  if spec <> [] then
+    List.iter (fun base ->
+        let line = send s.d ("parsesub " ^ hexstr base) in
+        (match toks line with
+         | "U" :: items ->
+           List.iter (fun it -> match String.split_on_char ':' it with
+               | [ i; b; c ] ->
+                 let t = Bytes.of_string base in
+                 Bytes.set t (int_of_string i) (Char.chr (int_of_string b));
+                 let t = Bytes.to_string t in
+                 let m = move_of_code (int_of_string c) in
+                 if not (List.mem t texts) && not (List.mem t [ "e1g1"; "e1c1"; "e8g8"; "e8c8" ]) then
+                   fail_spec "parse_move accepts %S (a one-byte change of the legal text %S) and returns %s" t base (show_move m);
+                 if List.mem t texts && string_of_str (move_text m) <> t then fail_spec "parse_move(%S) returns %s" t (show_move m)
+               | _ -> ()) items;
+           bump ~by:(255 * String.length base) "parse_substitutions"
+         | _ -> raise (Mismatch ("crash", "unparsable parsesub line"))))
+      [ string_of_str (move_text (pick r spec)); string_of_str (move_text (pick r spec)) ];
+  (* a legal text followed by a NUL byte and anything *)
+  if spec <> [] then begin
+    let str = string_of_str (move_text (pick r spec)) ^ "\000" ^ String.init (rand r 3) (fun _ -> Char.chr (rand r 256)) in
+    match toks (send s.d ("parse " ^ hexstr str)) with
+    | [ "p"; "throw" ] -> bump "parse_random_strings"
+    | _ -> fail_spec "parse_move accepts %S (a legal text followed by a NUL byte)" str
+  end;
   for _ = 1 to 12 do
     let str = mk () in
     if not (String.contains str ' ') && str <> "" then begin
@@ -304,7 +336,33 @@ let walk (s : sess) (r : rng) (pl : plan) =
       bump "pops_compared") !saved;
   if pl.p_state then ignore (obs_state s)
 
-let start (s : sess) (d : bool) (p : spos) = op_new s d (fen_string d p)
+(* a case starts on a fresh Position object or — one time in three, at most three times in a row — by set_fen on the
+   object the previous case left behind (whatever its position, mode and history): C07 says that must make no
+   difference, and every property is entitled to rely on it.  After a disagreement the next case starts fresh. *)
+(* before the random walk: every SPECIAL move of the start position (castling, en passant, promotions, double pushes,
+   king and rook moves, captures of a rook or by the king — where rights, clocks, hash keys and check detection have their
+   corner cases) and two ordinary ones are made, observed and undone, so that a family position exercises the move it was
+   built for and not only a random sample of its moves *)
+let root_children (s : sess) (r : rng) (pl : plan) =
+  let spec = spec_moves (sp_of s) in
+  let special (m : move) =
+    (match m.m_type with Normal -> false | _ -> true) || m.m_piece = King || m.m_piece = Rook in
+  let sp, ord = List.partition special spec in
+  let sp = if List.length sp > 14 then List.filteri (fun i _ -> i mod (1 + List.length sp / 14) = rand r 2 || i < 2) sp else sp in
+  let ord = match ord with [] -> [] | l -> [ pick r l; pick r l ] in
+  List.iter (fun m ->
+      let st, hi = send s.d "state", send s.d "hist" in
+      op_make s m;
+      bump "root_children";
+      ignore (visit s r pl);
+      ignore (op_undo s ~null:false);
+      let st', hi' = send s.d "state", send s.d "hist" in
+      if st' <> st || hi' <> hi then fail_spec "after undo of %s the position differs from the one saved before the move:\n before: %s\n after:  %s" (show_move m) st st') (sp @ ord)
+
+let start (s : sess) (d : bool) (p : spos) =
+  let reuse = (not !force_fresh) && !reuse_chain < 3 && s.stack <> [] && (match !the_rng with Some r -> chance r 1 3 | None -> false) in
+  if reuse then begin incr reuse_chain; bump "starts_on_reused_object"; op_setfen s d (fen_string d p) end
+  else begin reuse_chain := 0; force_fresh := false; op_new s d (fen_string d p) end
 
 (* ---------- raw value-type checks (C14, C15, C16, C17) ---------- *)
 let hexn = hex_of_n
@@ -316,7 +374,7 @@ let c16_word (s : sess) (a : n) (b : n) (sq : int) (k : int) =
   let ref_set f = n_of_bits (List.init 64 f) in
   match toks line with
   | "B" :: land_ :: lor_ :: lxor_ :: not_ :: cnt :: empty :: nonempty :: eq :: ne :: lsb :: hsb :: no :: so :: ea :: we :: adj :: get
-    :: set :: ands :: ors :: xors :: shl :: shr :: single :: aa :: oa :: xa :: "it" :: iter ->
+    :: set :: ands :: ors :: xors :: shl :: shr :: single :: aa :: oa :: xa :: "sqops" :: sqa :: sqo :: sqx :: "it" :: iter ->
     let want name got v = if got <> v then fail_spec "Bitboard %s: C++ %s, set semantics say %s (a=%s b=%s sq=%d n=%d)" name got v (hexn a) (hexn b) sq k in
     (* per-square reference *)
     want "&" land_ (hexn (ref_set (fun i -> mem a i && mem b i)));
@@ -345,6 +403,8 @@ let c16_word (s : sess) (a : n) (b : n) (sq : int) (k : int) =
     want ">>" shr (hexn (ref_set (fun i -> i + k <= 63 && mem a (i + k))));
     want "Bitboard(sq)" single (hexn (ref_set (fun i -> i = sq)));
     want "&=" aa land_; want "|=" oa lor_; want "^=" xa lxor_;
+    (* the compound assignments with a Square operand — on a member and on a non-member *)
+    want "&= sq" sqa ands; want "|= sq" sqo ors; want "^= sq" sqx xors;
     if List.map int_of_string iter <> members then fail_spec "iteration over %s yields %s" (hexn a) (String.concat " " iter);
     (* tie to M *)
     let tie name got v = if got <> v then fail_model "Bitboard %s differs from the model's (a=%s)" name (hexn a) in
@@ -366,7 +426,9 @@ let run_c16 (s : sess) (r : rng) =
       for q = 0 to 63 do
         let line = send s.d (Printf.sprintf "sq %d" q) in
         (match toks line with
-         | [ "q"; rk; fl; flip; light; dark; name; fr; fromstr; valid; offvalid; off; no; so; ea; we ] ->
+         | [ "q"; rk; fl; flip; light; dark; name; fr; fromstr; valid; offvalid; off; no; so; ea; we; os1; os2 ] ->
+           if unhexstr os1 <> sq_name q || unhexstr os2 <> sq_name q then
+             fail_spec "Square(%d) inserted into a stream reads %S (fresh stream) / %S (stream with hex|showbase|showpos|uppercase set), expected %S" q (unhexstr os1) (unhexstr os2) (sq_name q);
            let i = int_of_string in
            if i rk <> q / 8 || i fl <> q mod 8 then fail_spec "Square(%d): rank %s file %s" q rk fl;
            if i flip <> (7 - q / 8) * 8 + q mod 8 then fail_spec "Square(%d).flip() = %s" q flip;
@@ -589,6 +651,18 @@ let run_c15 (s : sess) (r : rng) (corpus : (bool * string) list) =
             op_setfen s d (fen_string d flip);
             if (get_state s).chash = h0 then fail_spec "hash ignores the side to move: %s" f
           end;
+          (* the same position written without the two counters (EPD style, 4 fields) and with one counter (5 fields): the
+             library accepts these records; clocks never influence the hash, so it must be h0 — and the model's *)
+          List.iter (fun nf ->
+              let short = String.concat " " (List.filteri (fun i _ -> i < nf) (String.split_on_char ' ' f)) in
+              s.ops <- s.ops + 1;
+              expect_ok s (send s.d (Printf.sprintf "setfen %d %s" (if d then 1 else 0) short));
+              let c = get_state s in
+              if c.chash <> h0 then fail_spec "the hash of %S (%d fields) is %s, the hash of %S is %s" short nf (hex_of_n c.chash) f (hex_of_n h0);
+              if c.chash <> c.ccalc then fail_spec "hash() <> calculate_hash() after set_fen(%S)" short;
+              let mp = set_fen_on s.keys (cur s).mp (str_of_string short) d in
+              if mp.hash <> c.chash then fail_model "set_fen(%S): hash differs from the model's" short;
+              bump "short_fens") [ 4; 5 ];
           start s d p;
           walk s r pl)) (start_positions r corpus n)
 
@@ -608,9 +682,79 @@ let run_positions (s : sess) (r : rng) (corpus : (bool * string) list) (pl : pla
           start s d p;
           bump ("source_" ^ tag);
           if List.length !samples < 4 then add_sample (Printf.sprintf "new %d %s ; walk depth %d" (if d then 1 else 0) (fen_string d p) pl.depth);
+          root_children s r pl;
           walk s r pl)) starts
 
 let tagged tag l = List.map (fun (d, p) -> (d, p, tag)) l
+
+(* ---------- scripted histories: shapes that random walks do not produce ---------- *)
+let rep n l = List.concat (List.init n (fun _ -> l))
+type script = { sc_name : string; sc_dfrc : bool; sc_fen : string; sc_ops : string list; sc_every : int; sc_shard0 : bool }
+let knight_cycle = [ "g1f3"; "g8f6"; "f3g1"; "f6g8" ]
+let startfen = "rnbqkbnr/pppppppp/8/8/8/8/PPPPPPPP/RNBQKBNR w KQkq - 0 1"
+let scripts () : script list = [
+  (* the same position at plies 0, 4 and 104 of one reversible stretch: the third occurrence lies more than 100 plies
+     after the second *)
+  { sc_name = "long_shuttle"; sc_dfrc = false; sc_fen = "4k3/8/8/8/8/8/8/4K3 w - - 0 1"; sc_every = 1; sc_shard0 = false;
+    sc_ops = [ "e1d1"; "e8d8"; "d1e1"; "d8e8"; "e1d1"; "e8d8" ] @ rep 24 [ "d1c1"; "d8c8"; "c1d1"; "c8d8" ] @ [ "d1e1"; "d8e8"; "e1f1"; "e8f8" ] };
+  (* perpetual check: the third occurrence with the side to move in check (not mated), both colours *)
+  { sc_name = "perpetual_white"; sc_dfrc = false; sc_fen = "6k1/6p1/8/7Q/8/8/8/6K1 w - - 0 1"; sc_every = 1; sc_shard0 = false;
+    sc_ops = rep 3 [ "h5e8"; "g8h7"; "e8h5"; "h7g8" ] @ [ "h5e8"; "undo"; "undo"; "undo"; "e8h5" ] };
+  { sc_name = "perpetual_black"; sc_dfrc = false; sc_fen = "6k1/8/8/8/7q/8/6P1/6K1 b - - 3 9"; sc_every = 1; sc_shard0 = false;
+    sc_ops = rep 3 [ "h4e1"; "g1h2"; "e1h4"; "h2g1" ] };
+  (* a new position loaded into an object that carries a game in which that position occurred: the old game is gone *)
+  { sc_name = "stale_history"; sc_dfrc = false; sc_fen = startfen; sc_every = 1; sc_shard0 = false;
+    sc_ops = rep 2 knight_cycle @ [ "setfen:0:rnbqkbnr/pppppppp/8/8/8/8/PPPPPPPP/RNBQKBNR w KQkq - 8 5" ] @ rep 2 knight_cycle
+             @ [ "setfen:1:rnbqkbnr/pppppppp/8/8/8/8/PPPPPPPP/RNBQKBNR w HAha - 12 7" ] @ knight_cycle };
+  (* a root whose full-move number is 0, both sides *)
+  { sc_name = "fullmove_zero"; sc_dfrc = false; sc_fen = "r3k2r/pppppppp/8/8/8/8/PPPPPPPP/R3K2R w KQkq - 0 0"; sc_every = 1; sc_shard0 = false;
+    sc_ops = [ "a2a3"; "a7a6"; "undo"; "undo"; "null"; "a7a6"; "undo"; "undo"; "e1h1"; "e8a8" ] };
+  (* the argument of makemove lives inside the position's own history while the history grows across every capacity boundary *)
+  { sc_name = "move_from_own_history"; sc_dfrc = false; sc_fen = startfen; sc_every = 8; sc_shard0 = false;
+    sc_ops = knight_cycle @ List.init 140 (fun i -> Printf.sprintf "makehist:%d:%s" i (List.nth knight_cycle (i mod 4))) };
+  (* more than 1024 stacked operations, then unwound to the root *)
+  { sc_name = "very_long_history"; sc_dfrc = false; sc_fen = startfen; sc_every = 97; sc_shard0 = true;
+    sc_ops = rep 140 (knight_cycle @ [ "null"; "null" ] @ knight_cycle) };
+]
+
+let run_scripts (s : sess) (r : rng) (pl : plan) (names : string list) =
+  List.iter (fun sc ->
+      if List.mem sc.sc_name names && ((not sc.sc_shard0) || !shard = 0) && (sc.sc_shard0 || Hashtbl.hash sc.sc_name mod !nshards = !shard) then
+        run_case s (fun () ->
+            op_new s sc.sc_dfrc sc.sc_fen;
+            bump ("script_" ^ sc.sc_name);
+            ignore (visit s r pl);
+            let saved : (string * string option * bool) list ref = ref [] in      (* state, hist (sometimes), was-null *)
+            let k = ref 0 in
+            let snap () = incr k; (send s.d "state", (if !k mod 16 = 0 || !k < 40 then Some (send s.d "hist") else None)) in
+            let find txt = match List.filter (fun m -> string_of_str (move_text m) = txt) (spec_moves (sp_of s)) with
+              | m :: _ -> m | [] -> failwith ("script " ^ sc.sc_name ^ ": " ^ txt ^ " is not legal here") in
+            let pop () = match !saved with
+              | (st, hi, null) :: rest ->
+                ignore (op_undo s ~null); saved := rest;
+                let st' = send s.d "state" in
+                if st' <> st then fail_spec "after undo the position differs from the one saved before the move:\n before: %s\n after:  %s" st st';
+                (match hi with Some h -> if send s.d "hist" <> h then fail_spec "after undo the history differs from the one saved before the move" | None -> ());
+                bump "pops_compared"
+              | [] -> () in
+            List.iteri (fun i op ->
+                (match String.split_on_char ':' op with
+                 | [ "undo" ] -> pop ()
+                 | [ "null" ] -> let st, hi = snap () in saved := (st, hi, true) :: !saved; op_null s
+                 | [ "setfen"; d; fen ] -> op_setfen s (d = "1") fen; saved := []
+                 | [ "makehist"; idx; txt ] ->
+                   let mv = find txt in
+                   let st, hi = snap () in saved := (st, hi, false) :: !saved;
+                   s.ops <- s.ops + 1;
+                   expect_ok s (send s.d ("makehist " ^ idx));
+                   let n = cur s in
+                   s.stack <- { mp = makemove s.keys n.mp mv; sg = g_move n.sg mv } :: s.stack
+                 | [ txt ] -> let mv = find txt in let st, hi = snap () in saved := (st, hi, false) :: !saved; op_make s mv
+                 | _ -> failwith ("bad script op " ^ op));
+                if (i + 1) mod sc.sc_every = 0 then ignore (visit s r pl)) sc.sc_ops;
+            ignore (visit s r pl);
+            while !saved <> [] do pop () done;
+            ignore (visit s r pl))) (scripts ())
 
 let () =
   let specs = [
@@ -639,9 +783,13 @@ let () =
          let fam = tagged "castling_family" (castling_family r (600 / !nshards)) @ tagged "ep_family" (ep_family r (1200 / !nshards))
                    @ tagged "pin_family" (pin_family r (600 / !nshards)) @ tagged "promo_family" (promo_family r (300 / !nshards)) in
          run_positions s r corpus { none with p_moves = true; p_into = true; p_islegal = true; depth = 10; undo_pct = 5; null_pct = 2 } 3000 150000 ~extra:fam ()
-       | "C02" -> run_positions s r corpus { none with p_state = true; p_maketext = true; depth = 40; undo_pct = 4; null_pct = 4 } 3000 100000
+       | "C02" ->
+         run_scripts s r { none with p_state = true } [ "fullmove_zero" ];
+         run_positions s r corpus { none with p_state = true; p_maketext = true; depth = 40; undo_pct = 4; null_pct = 4 } 3000 100000
                     ~extra:(tagged "castling_family" (castling_family r (400 / !nshards)) @ tagged "promo_family" (promo_family r (300 / !nshards))) ()
-       | "C03" -> run_positions s r corpus { none with p_state = true; p_hist = true; p_moves = true; depth = 120; undo_pct = 30; null_pct = 6 } 800 20000 ()
+       | "C03" ->
+         run_scripts s r { none with p_state = true; p_hist = true } [ "very_long_history"; "fullmove_zero"; "move_from_own_history" ];
+         run_positions s r corpus { none with p_state = true; p_hist = true; p_moves = true; depth = 120; undo_pct = 30; null_pct = 6 } 800 20000 ()
        | "C05" -> run_positions s r corpus { none with p_state = true; depth = 60; undo_pct = 15; null_pct = 5 } 3000 100000 ()
        | "C08" -> run_positions s r corpus { none with p_attacks = true; p_attackers = true; depth = 12; undo_pct = 5; null_pct = 3 } 2500 100000
                     ~extra:(tagged "pin_family" (pin_family r (400 / !nshards))) ()
@@ -651,10 +799,23 @@ let () =
          let sk = List.filter_map (fun _ -> match pawn_skeleton r with Some p -> Some (true, p, "pawn_skeleton") | None -> None) (List.init (20000 / !nshards) (fun i -> i)) in
          run_positions s r corpus { none with p_attacks = true; depth = 0 } 100 1000 ~extra:sk ();
          run_positions s r corpus { none with p_attacks = true; depth = 12 } 2000 100000 ()
-       | "C10" -> run_positions s r corpus { none with p_game = true; depth = 40; undo_pct = 8; null_pct = 3 } 2500 100000 ()
+       | "C10" ->
+         run_scripts s r { none with p_game = true; p_state = true } [ "long_shuttle"; "perpetual_white"; "perpetual_black"; "stale_history" ];
+         run_positions s r corpus { none with p_game = true; depth = 40; undo_pct = 8; null_pct = 3 } 2500 100000 ()
        | "C11" -> run_positions s r corpus { none with p_text = true; p_parseall = 15; depth = 12 } 2500 80000
                     ~extra:(tagged "castling_family" (castling_family r (300 / !nshards))) ()
-       | "C12" -> run_positions s r corpus { none with p_text = true; p_predict = true; p_predict_cpp = true; depth = 14 } 2500 100000
+       | "C12" ->
+         (* equal hash, different castling rook: queried back to back on one object and in one process (a cache keyed by the
+            hash, or rook squares left over from the previous position, would answer for the wrong position) *)
+         List.iter (fun (pa, pb) ->
+             run_case s (fun () ->
+                 bump "source_rook_identity_pair";
+                 let pl = { none with p_text = true; p_predict = true; p_predict_cpp = true } in
+                 op_new s true (fen_string true pa); ignore (visit s r pl);
+                 op_setfen s true (fen_string true pb); ignore (visit s r pl);
+                 op_setfen s true (fen_string true pa); ignore (visit s r pl);
+                 root_children s r pl)) (rook_identity_pairs r (max 1 ((if !tier = "quick" then 64 else 1200) / !nshards)));
+         run_positions s r corpus { none with p_text = true; p_predict = true; p_predict_cpp = true; depth = 14 } 2500 100000
                     ~extra:(tagged "castling_family" (castling_family r (600 / !nshards)) @ tagged "promo_family" (promo_family r (300 / !nshards))) ()
        | "C07" -> run_positions s r corpus { none with p_rt = true; p_fen = true; p_state = true; depth = 20 } 2500 100000 ()
        | "C04" ->
@@ -668,10 +829,16 @@ let () =
                      ignore (visit s r { none with p_perft = 3 })) [ pa; pb; pa ])) (rook_identity_pairs r (max 1 ((if !tier = "quick" then 48 else 800) / !nshards)));
          run_positions s r corpus { none with p_perft = (if !tier = "quick" then 2 else 3); depth = 3; undo_pct = 0; null_pct = 0 } 400 8000
                     ~extra:(tagged "castling_family" (castling_family r (100 / !nshards)) @ tagged "ep_family" (ep_family r (200 / !nshards))) ()
-       | "C20" -> run_positions s r corpus { none with p_state = true; p_moves = true; p_attacks = true; p_game = true; p_text = true; p_fen = true; p_hist = true;
+       | "C20" ->
+         run_scripts s r { none with p_state = true; p_moves = true; p_game = true; p_hist = true }
+           [ "move_from_own_history"; "very_long_history"; "long_shuttle"; "perpetual_white"; "stale_history"; "fullmove_zero" ];
+         run_positions s r corpus { none with p_state = true; p_moves = true; p_attacks = true; p_game = true; p_text = true; p_fen = true; p_hist = true;
                                                        depth = 40; undo_pct = 12; null_pct = 4 } 1500 60000
                     ~extra:(tagged "castling_family" (castling_family r (300 / !nshards)) @ tagged "ep_family" (ep_family r (600 / !nshards))
                             @ tagged "promo_family" (promo_family r (200 / !nshards))) ()
+       | "C09" ->
+         run_scripts s r { none with p_game = true; p_state = true } [ "long_shuttle"; "perpetual_white"; "perpetual_black"; "stale_history" ];
+         Special.run s r corpus "C09" !tier !nshards !budget
        | p -> Special.run s r corpus p !tier !nshards !budget
    with Exit -> ());
   (try ignore (send d "quit") with _ -> ());
